@@ -235,12 +235,6 @@ func leanNatList(xs []int) string {
 	return "[" + strings.Join(s, ", ") + "]"
 }
 
-func leanBool(b bool) string {
-	if b {
-		return "true"
-	}
-	return "false"
-}
 
 func genBuffersC07(x *Ctx) (string, interface{}, error) {
 	facts := map[string]interface{}{}
